@@ -222,3 +222,50 @@ func Harness_C01_trust() {
 	verifAssert(r.d.SignResponse != 2, "C01/trust/untrusted-response-signature-rejects")
 	verifAssert(r.d.Assertions[0].Sign == 1 || r.d.SignResponse == 1, "C01/trust/covered-by-trusted-signature")
 }
+
+// Harness_C01_encrypted: one assertion delivered as an EncryptedAssertion - encrypted to the SP's
+// certificate (which needs no secret) or to another certificate - in every signing layout. The
+// decrypted assertion is subject to exactly the checks a plaintext one gets: it is returned only
+// under a trusted signature (its own, inside the ciphertext, or the Response's), and ciphertext the
+// SP cannot decrypt is a validation failure.
+func Harness_C01_encrypted() {
+	r := &spFlowRun{}
+	r.sp = verifSP("sp")
+	r.sp.Key = verifTestSigner(0, 2)
+	verifTolerances()
+	verifAssume(MaxClockSkew < time.Hour)
+	r.now = verifNondetTime("now")
+	verifAssume(r.now.After(time.Unix(0, 0)))
+	now := r.now
+	TimeNow = func() time.Time { return now }
+	r.ids = []string{"id-request"}
+	r.cur = r.sp.AcsURL
+	r.d = verifValidDoc("doc", 1, r.sp, r.ids, r.now, true)
+	if len(r.d.Assertions) != 1 {
+		return
+	}
+	r.d.Assertions[0].Encrypt = 1 + verifChoose("doc.A0.EncryptTo", 2)
+	r.a, r.err = r.sp.ParseXMLResponse(verifMaterialise(r.d), r.ids, r.cur)
+	verifNote("err", r.err)
+	if r.err != nil {
+		verifReach("rejected")
+		verifAssert(r.a == nil, "C09/encrypted/error-without-assertion")
+		return
+	}
+	verifReach("accepted")
+	verifAssert(r.a != nil, "C01+C08/encrypted/accepted-has-assertion")
+	if r.a == nil {
+		return
+	}
+	A := r.d.Assertions[0]
+	verifAssert(r.a.ID == A.A.ID, "C01+C08/encrypted/returned-assertion-is-from-the-document")
+	verifAssert(A.Encrypt == 1, "C01+C08/encrypted/undecryptable-ciphertext-is-rejected")
+	verifAssert(r.d.SignResponse != 2, "C01+C08/encrypted/untrusted-response-signature-rejects")
+	verifAssert(A.Sign == 1 || r.d.SignResponse == 1, "C01+C08/encrypted/covered-by-trusted-signature")
+	if A.Sign == 1 && r.d.SignResponse == 0 {
+		verifReach("accepted-by-inner-signature")
+	}
+	if A.Sign == 0 && r.d.SignResponse == 1 {
+		verifReach("accepted-by-response-signature")
+	}
+}
